@@ -12,11 +12,11 @@ compressed data corrupted). Coverage-guided byte mutation is a different techniq
 EVIDENCE = dict(
     level="model_checking",
     rule="(1) every token stream of <= 4 (thorough 5) tokens over {name,int,<<,>>,[,],lone '>'} from ParserLoop.tla through "
-         "core.Parser / contentstream.Parser, each followed by an operator, by white space and the end of the data, and by the end of the data at once; (2) every reference graph on 3 nodes from GraphWalk.tla rendered as a /Kids tree and a "
+         "core.Parser / contentstream.Parser, each followed by an operator, by white space and the end of the data, and by the end of the data at once; (1b) every sequence of <= 3 CMap section keywords / hex tokens / counts / brackets from CMapRobust.tla, with and without white space between them, through font.ParseToUnicodeCMap and a lookup; (2) every reference graph on 3 nodes from GraphWalk.tla rendered as a /Kids tree and a "
          "/Prev chain and walked by every entry point incl. ResolveDeep; (3) Faults.tla: every (format, fault kind, site selector, "
          "parameter) single fault over 10 base documents (4 PDF layouts: classic table / xref+object streams / PNG-predicted streams incl. predicted xref streams / TIFF-predicted streams; DOCX, ODT, XLSX, PPTX, EPUB, HTML), every numeric field x 4 extreme values - rewritten in the finished file ('number') and replaced before the file is laid out so that all offsets and lengths stay consistent ('field') - and what sits inside the streams ('payload': every token boundary of every page content part, ToUnicode program and embedded font program cut there, cut with a white-space character left, or one token removed, the file laid out around the damaged payload) - including the fields inside encoded streams: every number of every object-stream header and every field of every cross-reference-stream row, rebuilt by the writer - and every reference x 3 retargets at every site; thorough adds "
-         "truncation at every token boundary and -simulate double faults; each damaged input goes through 11-13 public entry "
-         "points inside watched child processes. ParserLoop / GraphWalk are checked for Termination under weak fairness, their "
+         "truncation at every token boundary and -simulate double faults; each damaged input goes through 11-20 public entry "
+         "points (for PDF also the three text modes PreserveLayout / ByColumn / JoinParagraphs, ReadingOrder, Paragraphs, Headings / Lists / Blocks / IsMultiColumn) inside watched child processes. ParserLoop / GraphWalk are checked for Termination under weak fairness, their "
          "pinned variants refuted. Recorded Call events validated by FaultsTrace.tla. Non-trivial = input actually damaged.",
     assumptions=["a dead or stalled child process is attributed to the case it announced last", "zlib/zip/xml of the Go standard library are in the trusted base"],
 )
@@ -43,11 +43,21 @@ def run(ctx):
             cases.append({"toks": t["toks"], "bad": t.get("bad", "gt"), "ends": t.get("ends", ["op"])})
     for g in graphs:
         cases.append({"graph": g["graph"]})
+    # token streams for the third parser, the ToUnicode CMap reader: every sequence of <= 3 section keywords, hex tokens,
+    # counts and brackets, with and without white space between two of them
+    cm_seen = set()
+    for t in ctx.tlc("CMapRobust", "CMapRobust_gen.cfg", workers=1, collect=True, count=False)["cases"]:
+        key = vlib.json.dumps(t)
+        if key not in cm_seen:
+            cm_seen.add(key)
+            cases.append({"cmaptoks": t["cmaptoks"], "tight": t["tight"]})
+    ctx.extra["cmap_token_streams"] = len(cm_seen)
     for sp in ("lenstm", "len2cycle",        # cycles that run through stream /Length entries
                "ladder-kids", "ladder-dict",   # acyclic graphs that are not trees: 2^28 paths through 28 levels
                "xref-index-odd", "xref-w000",  # /Index of odd length; zero-width entries x 2^31 announced entries
                "ttf-segments",                 # an embedded font whose cmap repeats the whole code range 32767 times
-               "count-size-huge"):             # page count and trailer /Size both huge (a bound taken from the other field)
+               "count-size-huge",              # page count and trailer /Size both huge (a bound taken from the other field)
+               "xml-case-shrink"):             # XHTML whose head holds letters that get shorter (or longer) in UTF-8 when case-folded
         cases.append({"special": sp})
     for f in faults:
         cases.append({"fmt": f["fmt"], "faults": f["faults"], "k": k})
@@ -68,6 +78,12 @@ def run(ctx):
         pl = [("pdf-classic", "cut"), ("pdf-classic", "cutsp"), ("pdf-stream", "drop"), ("pdf-ttf", "cut"), ("pdf-ttf", "cutsp"), ("pdf-ttf", "drop")]
     else:
         pl = [(f, d) for f in ("pdf-classic", "pdf-stream", "pdf-png", "pdf-tiff", "pdf-ttf") for d in ("cut", "cutsp", "drop")]
+    # ... and the numbers inside the streams (operands of the page content, counts and codes of the CMap programs)
+    if q:
+        pl += [("pdf-classic", "num=2147483648"), ("pdf-classic", "num=900719925474099"), ("pdf-ttf", "num=9223372036854775807")]
+    else:
+        pl += [(f, "num=" + v) for f in ("pdf-classic", "pdf-stream", "pdf-png", "pdf-tiff", "pdf-ttf")
+               for v in ("-1", "2147483648", "9223372036854775807", "900719925474099")]
     for fmt, dmg in pl:
         cases.append({"fmt": fmt, "faults": [{"kind": "payload", "site": 0, "param": dmg}], "all": True})
     for fmt in ("pdf-classic", "pdf-stream", "pdf-png", "pdf-tiff"):
